@@ -539,7 +539,12 @@ class Response(_SansIOResponse):
         ):
             iterable: t.Iterable[bytes] = ()
         elif self.direct_passthrough:
-            return self.response  # type: ignore
+            if not self._on_close:
+                return self.response  # type: ignore
+
+            # The server only closes what it is given: chain the registered
+            # callbacks to the iterable's own close.
+            return ClosingIterator(self.response, self._on_close)  # type: ignore
         else:
             iterable = self.iter_encoded()
         return ClosingIterator(iterable, self.close)
